@@ -20,6 +20,7 @@ from rt.search_helpers import IntRep, Recorder, Deadline, single_tracker, multi_
 
 from geneticengine.problems import SingleObjectiveProblem, MultiObjectiveProblem
 from geneticengine.evaluation.recorder import CSVSearchRecorder
+from geneticengine.evaluation.sequential import SequentialEvaluator
 from geneticengine.solutions.individual import Individual
 
 
@@ -158,6 +159,13 @@ def recorder_case(find, directory, config, mode):
     tracker = (single_tracker if n_obj == 0 else multi_tracker)(problem, [rec, mine])
     inds = [Individual(rep.create_genotype(None), rep) for _ in values]
     expected_rows = []
+    prior = None
+    if config.get("prior"):
+        # multi-stage history: the individuals already carry a fitness for an earlier, still alive problem
+        # (survivors of a first search stage); the log of THIS problem must not show those numbers
+        prior = make_problem([v + 7 for v in values], max(2, n_cols_obj), not minimize)
+        SequentialEvaluator().evaluate(prior, inds)
+        desc += ", individuals previously evaluated under another problem"
 
     def verify(step):
         rows, complete, text = read_log(path)
@@ -409,7 +417,7 @@ def run(tier: str, seed: int) -> dict:
                 if mode == "tracker" and n_obj >= 1 and only_best:
                     # multi-objective trackers flag ties as best (C12's reading); rows are then compared with the flags delivered
                     pass
-                config = dict(values=h, n_obj=n_obj, fields=fields, extra=extra, only_best=only_best, minimize=minimize, style="text" if i % 4 == 0 else "int")
+                config = dict(values=h, n_obj=n_obj, fields=fields, extra=extra, only_best=only_best, minimize=minimize, style="text" if i % 4 == 0 else "int", prior=i % 3 == 1)
                 ok = recorder_case(find, directory, config, mode)
                 evaluations += 1
                 nontrivial += len(h) > 1 and (n_obj >= 2 or extra)
@@ -459,7 +467,7 @@ def run(tier: str, seed: int) -> dict:
         "only_record_best_individuals True/False x both directions x fitness histories of length 1..7 x int phenotypes and text phenotypes containing comma, quotes and a line break; "
         "register() driven directly (is_best = strict improvement) and through real trackers; after construction and after EVERY register call the file is re-read: it re-serialises to itself "
         "(complete rows only), header == configured fields, one row per registration (only flagged ones when so configured), Fitness{k} == k-th component (columns made distinct by +10k), "
-        "extra fields computed from that individual.  SimpleGP.build_recorder with 1-4 csv_extra_fields callbacks (each column must show its own callback's output).  Kill points: a child "
+        "extra fields computed from that individual; in a third of the cases the individuals were evaluated under an earlier, still alive problem first (multi-stage search).  SimpleGP.build_recorder with 1-4 csv_extra_fields callbacks (each column must show its own callback's output).  Kill points: a child "
         "process registers rows through a real tracker and is SIGKILLed after registration #k for every k (0..n); the file left behind must be header + exactly the rows registered so far"
     )
     return result(evaluations, nontrivial, rule, samples, find.violations(), exhaustive=False, kill_points=kills, notes=notes[:5])
